@@ -6,5 +6,8 @@ CONSTANTS
   Vias <- ViasDeep
   MaxInject = 2
   Spoof = TRUE
+  Confs <- ConfsSw
+  Stores <- StoresNone
+  Ancs <- AncsTs
   RestoreAtTop = TRUE
 INVARIANTS ReplyIffValid ExactlyOne ToSender ReplyHeader NeverAnswersReply BoundedTraffic HistoryIndependence
